@@ -23,9 +23,9 @@
     distances sum to zero contributes `0` to the sum inside `logsumexp`.  (Faithful for
     `distance_factor > 0` only: `0 * -inf` is NaN and a negative factor gives `+inf`; the
     scorer always uses the default `1.0`.)
-  * `scipy.special.logsumexp` is modelled as `log (Σ exp xᵢ)` WITHOUT its max-shift; the two
-    agree over the reals whenever the sum is positive, and the Float tie is only evaluated on
-    inputs where `exp` neither over- nor underflows (the harness says how many were skipped).
+  * `scipy.special.logsumexp` is modelled as implemented (`logSumExpShifted`: subtract the row
+    maximum, `0` when that is `-inf`); `Lemmas/Dbal.lean` proves it equal to the plain
+    `log (Σ exp xᵢ)` (`logSumExp`) over the reals for every row.
 -/
 namespace Batchie.Dbal
 
@@ -192,23 +192,39 @@ def expOrZero (o : Option α) : α :=
   | none => 0
   | some x => ExpLog.exp x
 
-/-- `logsumexp` over one row; `none = -inf` contributes `exp(-inf) = 0`.  No max-shift (header). -/
+/-- `log Σ exp` over one row; `none = -inf` contributes `exp(-inf) = 0`.  The specification of
+    `logsumexp`, without the max-shift. -/
 def logSumExp (xs : List (Option α)) : α :=
   ExpLog.log ((xs.map expOrZero).sum)
 
+/-- `np.amax` over one row; `none = -inf` -/
+def rowMax [Max α] : List (Option α) → Option α
+  | [] => none
+  | o :: os =>
+    match o, rowMax os with
+    | none, r => r
+    | some x, none => some x
+    | some x, some y => some (max x y)
+
+/-- `scipy.special.logsumexp` as implemented: `a_max = amax(a)`, `a_max[~isfinite(a_max)] = 0`,
+    `log(sum(exp(a - a_max))) + a_max` -/
+def logSumExpShifted [Max α] (xs : List (Option α)) : α :=
+  let aMax : α := (rowMax xs).getD 0
+  ExpLog.log ((xs.map (fun o => expOrZero (o.map (fun x => x - aMax)))).sum) + aMax
+
 /-- the score of one plate of the dense arrays -/
-def scorePlateDense (D : Nat → Nat → α) (factor : α) (triples : List Triple)
+def scorePlateDense [Max α] (D : Nat → Nat → α) (factor : α) (triples : List Triple)
     (preds : List (List α)) (vars : List (List (Option α))) : α :=
-  logSumExp (triples.map (comboTerm D factor preds (maskOf vars) (nanToNum vars)))
+  logSumExpShifted (triples.map (comboTerm D factor preds (maskOf vars) (nanToNum vars)))
 
 /-- `dbal_fast_gauss_scoring_vectorized(predictions, variances, distance_matrix, …)` on valid
     shapes: `predictions`, `variances` of shape `(n_plates, n_thetas, width)` -/
-def scoreVectorised (D : Nat → Nat → α) (factor : α) (triples : List Triple)
+def scoreVectorised [Max α] (D : Nat → Nat → α) (factor : α) (triples : List Triple)
     (preds : List (List (List α))) (vars : List (List (List (Option α)))) : List α :=
   List.zipWith (scorePlateDense D factor triples) preds vars
 
 /-- `dbal_fast_gaussian_scoring_heteroscedastic(per_plate_predictions, variances, …)` -/
-def scoreHeteroscedastic (D : Nat → Nat → α) (factor : α) (triples : List Triple)
+def scoreHeteroscedastic [Max α] (D : Nat → Nat → α) (factor : α) (triples : List Triple)
     (preds vars : List (List (List α))) : List α :=
   scoreVectorised D factor triples (padRagged 0 preds) (padRagged none (vars.map someArray))
 
@@ -218,14 +234,14 @@ def homoscedasticRagged (preds : List (List (List α))) (vars : List (List α)) 
   List.zipWith (fun pp pv => pv.map (fun v => List.replicate (shape1 pp) (v * 1))) preds vars
 
 /-- `dbal_fast_gaussian_scoring_homoscedastic(per_plate_predictions, variances (n_plates × n_thetas), …)` -/
-def scoreHomoscedastic (D : Nat → Nat → α) (factor : α) (triples : List Triple)
+def scoreHomoscedastic [Max α] (D : Nat → Nat → α) (factor : α) (triples : List Triple)
     (preds : List (List (List α))) (vars : List (List α)) : List α :=
   scoreVectorised D factor triples (padRagged 0 preds)
     (padRagged none ((homoscedasticRagged preds vars).map someArray))
 
 /-- the three kernels applied to a group of plates given as experiments (`predict_*_all` build
     the arrays): what one iteration of the scorer's loop computes -/
-def scoreGroup (n : Nat) (D : Nat → Nat → α) (factor : α) (triples : List Triple)
+def scoreGroup [Max α] (n : Nat) (D : Nat → Nat → α) (factor : α) (triples : List Triple)
     (group : List (Plate α)) : List α :=
   scoreVectorised D factor triples
     (padRagged 0 (group.map (meansArray n)))
@@ -235,7 +251,7 @@ def scoreGroup (n : Nat) (D : Nat → Nat → α) (factor : α) (triples : List 
     `plates` is the dict in insertion order (keys are unique); `tripless g` is the triple list
     drawn by the `g`-th call of the kernel (each sub-group draws afresh from `rng`).
     The returned association list is the returned dict in insertion order. -/
-def scorerScore (n : Nat) (D : Nat → Nat → α) (maxChunk : Nat) (tripless : Nat → List Triple)
+def scorerScore [Max α] (n : Nat) (D : Nat → Nat → α) (maxChunk : Nat) (tripless : Nat → List Triple)
     (plates : List (Nat × Plate α)) : List (Nat × α) :=
   if plates.isEmpty then []
   else
